@@ -17,8 +17,17 @@ HBodies ==
            s \in {MCall(A, "act", <<IntL(1)>>)}, t \in {MCall(A, "act", <<IntL(2)>>), RetVS(0)}, u \in {MCall(B, "poke", <<>>)},
            d \in {NoneS(0), Def(0, <<MCall(A, "act", <<IntL(9)>>)>>), Def(1, <<MCall(A, "act", <<IntL(9)>>), BrkS(0)>>), Def(2, <<>>)}}
   \cup {Block(<<Let("k", Bin("*", PN, IntL(2))), If(Bin("==", Lv("k"), IntL(6)), Block(<<MCall(A, "act", <<Lv("k")>>), RetVS(0)>>), NoneS(0)), Log("info", <<Lv("k")>>)>>)}
+\* control-flow merges followed only by declarations whose initialiser has an observable effect
+Conds == {Bin(">", PN, IntL(0)), Rd(A, "flag")}
+TailDecl ==
+     {Block(<<If(c, s, t), LetC("r", A, "twice", <<PN>>)>>) : c \in Conds, s \in HSimple \cup {Block(<<>>), RetVS(0)}, t \in {NoneS(0)} \cup HSimple}
+  \cup {Block(<<If(c, s, t), Const("z", Bin("+", PN, IntL(1))), LetC("r", B, "twice", <<Lv("z")>>)>>) : c \in Conds, s \in {MCall(A, "act", <<PN>>)}, t \in {NoneS(0), MCall(B, "poke", <<>>)}}
+  \cup {Block(<<Sw(PN, <<Case(IntL(0), <<s>>), Case(IntL(3), <<BrkS(0)>>)>>, d), LetC("r", A, "twice", <<IntL(4)>>)>>) :
+           s \in {MCall(A, "act", <<IntL(1)>>), BrkS(0)}, d \in {NoneS(0), Def(0, <<MCall(A, "act", <<IntL(9)>>)>>), Def(2, <<BrkS(0)>>)}}
+  \cup {Block(<<If(c, Block(<<If(Rd(B, "flag"), s, NoneS(0))>>), NoneS(0)), LetC("r", A, "twice", <<PN>>)>>) : c \in Conds, s \in {MCall(A, "poke", <<>>), RetVS(0)}}
+  \cup {Block(<<Let("q", Tern(c, IntL(1), IntL(2))), LetC("r", A, "twice", <<Lv("q")>>)>>) : c \in Conds}
 Params2 == <<[n |-> "n", ty |-> "int"], [n |-> "s", ty |-> "QString"]>>
-HandlerProgs == {[sig |-> "fired", params |-> Params2, form |-> f, body |-> b] : b \in Sample(HBodies), f \in {"function"}}
+HandlerProgs == {[sig |-> "fired", params |-> Params2, form |-> f, body |-> b] : b \in Sample(HBodies) \cup TailDecl, f \in {"function"}}
    \cup {[sig |-> "fired", params |-> Params2, form |-> f, body |-> b] : b \in Sample({Block(<<s>>) : s \in HSimple}), f \in {"arrow", "function"}}
 
 
